@@ -15,16 +15,18 @@ static std::vector<uint8_t> g_bank;
 static const int CORES[] = {OPNMIDI_EMU_MAME, OPNMIDI_EMU_NUKED_YM3438, OPNMIDI_EMU_GENS, OPNMIDI_EMU_YMFM_OPN2, OPNMIDI_EMU_NP2, OPNMIDI_EMU_MAME_2608, OPNMIDI_EMU_YMFM_OPNA, OPNMIDI_EMU_NUKED_YM2612};
 static const char *CNAME[] = {"MAME-YM2612", "Nuked-YM3438", "GENS", "YMFM-OPN2", "NP2-OPNA", "MAME-YM2608", "YMFM-OPNA", "Nuked-YM2612"};
 static const int NCORES = 8;
+static bool g_thorough = false;
 
 // An instance history of 4 calls: [create+configure] [note-on] [generate] [generate+close]
-struct Cfg { int core; long rate; bool pcmrate; int key; };
+struct Cfg { int core; long rate; bool pcmrate; int key; int family = 0; Cfg(int c = 0, long r = 44100, bool p = false, int k = 60, int f = 0) : core(c), rate(r), pcmrate(p), key(k), family(f) {} };
 struct Run {
     Cfg c; pl::Instance I; std::string pcm; int step = 0; vu::Ser regs;
     void call(int k) {
         static __thread short buf[2048];
         switch(k) {
-        case 0: I.create(c.rate); I.tap.logging = true; opn2_switchEmulator(I.dev, c.core); opn2_setRunAtPcmRate(I.dev, c.pcmrate ? 1 : 0); opn2_setNumChips(I.dev, 1); opn2_openBankData(I.dev, g_bank.data(), (long)g_bank.size()); break;
-        case 1: opn2_rt_noteOn(I.dev, 0, (OPN2_UInt8)c.key, 120); opn2_rt_noteOn(I.dev, 9, 40, 100); break;
+        case 0: I.create(c.rate); I.tap.logging = true; opn2_switchEmulator(I.dev, c.core); opn2_setRunAtPcmRate(I.dev, c.pcmrate ? 1 : 0); opn2_setNumChips(I.dev, 1); opn2_openBankData(I.dev, g_bank.data(), (long)g_bank.size()); opn2_setChipType(I.dev, c.family); break;
+        case 1: opn2_setLfoFrequency(I.dev, 5); opn2_setLfoEnabled(I.dev, 1);   // rewrites the LFO register after the other instance may have been created
+                opn2_rt_noteOn(I.dev, 0, (OPN2_UInt8)c.key, 120); opn2_rt_noteOn(I.dev, 9, 40, 100); break;
         case 2: { int n = opn2_generate(I.dev, 1024, buf); pcm.append((const char *)buf, (size_t)n * 2); break; }
         case 3: { opn2_rt_pitchBend(I.dev, 0, 9000); int n = opn2_generate(I.dev, 1024, buf); pcm.append((const char *)buf, (size_t)n * 2);
                   for(auto &w : I.tap.log) { regs.u16(w.chip); regs.u8(w.port); regs.u16(w.reg); regs.u16(w.val); regs.u8(w.kind); } I.close(); break; }
@@ -33,7 +35,7 @@ struct Run {
     std::string digest() { vu::H128 a = vu::hash128(pcm), b = vu::hash128(regs.s); return vu::hex(&a, sizeof a) + ":" + vu::hex(&b, sizeof b); }
 };
 static std::string solo(const Cfg &c) { Run r; r.c = c; for(int k = 0; k < 4; k++) r.call(k); return r.digest(); }
-static std::string cfg_str(const Cfg &c) { int ci = 0; for(int i = 0; i < NCORES; i++) if(CORES[i] == c.core) ci = i; char b[96]; snprintf(b, sizeof b, "%s@%ldHz%s key %d", CNAME[ci], c.rate, c.pcmrate ? " pcm-rate" : "", c.key); return b; }
+static std::string cfg_str(const Cfg &c) { int ci = 0; for(int i = 0; i < NCORES; i++) if(CORES[i] == c.core) ci = i; char b[96]; snprintf(b, sizeof b, "%s@%ldHz%s%s key %d", CNAME[ci], c.rate, c.pcmrate ? " pcm-rate" : "", c.family ? " OPNA-family" : " OPN2-family", c.key); return b; }
 
 // all interleavings of sequences of lengths n[0..k-1]: enumerated by index
 static void interleavings(const std::vector<int> &n, std::vector<std::vector<int>> &out) {
@@ -55,7 +57,7 @@ static std::string solo_fresh(const Cfg &c) {
 
 int main(int argc, char **argv) {
     en::Args a = en::parse_args(argc, argv);
-    bool thorough = a.tier == "thorough";
+    bool thorough = a.tier == "thorough"; g_thorough = thorough;
     pl::install_hooks(false);
     g_opn_verif.yield = sc::yield_hook;
     { WOPNFile *f = WOPN_Init(1, 1); f->version = 2;
@@ -66,12 +68,12 @@ int main(int argc, char **argv) {
     static const std::vector<std::string> TAGS = {};
     std::vector<en::Family> fams;
     // (a) reference digests (this process has run nothing else yet)
-    { std::string all; for(int c = 0; c < NCORES; c++) for(long rate : {22050l, 44100l, 53267l}) for(int key : {48, 72}) { Cfg g = {CORES[c], rate, false, key}; std::string d1 = solo_fresh(g), d2 = solo_fresh(g); if(d1 != d2 || d1.empty()) all += "NONDETERMINISTIC(" + cfg_str(g) + ")"; all += d1 + ";"; }
+    { std::string all; for(int c = 0; c < NCORES; c++) for(long rate : {22050l, 44100l, 53267l}) for(int key : {48, 72}) { Cfg g(CORES[c], rate, false, key); std::string d1 = solo_fresh(g), d2 = solo_fresh(g); if(d1 != d2 || d1.empty()) all += "NONDETERMINISTIC(" + cfg_str(g) + ")"; all += d1 + ";"; }
       vu::H128 h = vu::hash128(all); en::g_extra["solo_digest"] = vu::hex(&h, sizeof h); en::g_extra["solo_digest_nondeterministic"] = all.find("NONDETERMINISTIC") != std::string::npos ? all.substr(all.find("NONDETERMINISTIC"), 80) : ""; }
     static const long RATES[] = {44100, 22050};
     { std::vector<std::vector<int>> il; interleavings({4, 4}, il); static std::vector<std::vector<int>> IL; IL = il;
-      en::Family F; F.name = "two_instances_one_thread"; F.count = (uint64_t)NCORES * NCORES * 2 * 2; F.chunk = 1; F.budget_s = 600; F.describe = "observed instance core x interfering instance core (8 x 8, both Nuked modes) x interfering sample rate {same, different} x interfering run-at-PCM-rate {off,on}; inside each: all " + std::to_string(il.size()) + " interleavings of the two 4-call histories [create+configure, note-ons, generate 512, bend+generate 512+close] on one thread";
-      F.run = [](uint64_t i, en::CaseOut &o) { Cfg A = {CORES[i % NCORES], 44100, false, 60}; Cfg B = {CORES[(i / NCORES) % NCORES], RATES[(i / 64) % 2], (bool)((i / 128) % 2), 67};
+      en::Family F; F.name = "two_instances_one_thread"; F.count = (uint64_t)NCORES * NCORES * 8 * (thorough ? 4 : 2); F.chunk = 1; F.budget_s = 600; F.describe = std::string("observed instance core x interfering instance core (8 x 8, both Nuked modes) x interfering sample rate {same, different} x interfering run-at-PCM-rate {off,on} x interfering chip family {OPN2,OPNA} x observed instance ") + (thorough ? "{run-at-PCM-rate off,on} x {OPN2,OPNA family}" : "{PCM-rate off + OPN2 family, PCM-rate on + OPNA family}") + "; both histories set the chip type at creation and rewrite the LFO register before their note-ons; inside each: all " + std::to_string(il.size()) + " interleavings of the two 4-call histories [create+configure, note-ons, generate 512, bend+generate 512+close] on one thread";
+      F.run = [](uint64_t i, en::CaseOut &o) { unsigned av = (unsigned)(i / 512); bool apcm = g_thorough ? (av & 1) : (av == 1), afam = g_thorough ? (av >> 1) : (av == 1); Cfg A(CORES[i % NCORES], 44100, apcm, 60, afam); Cfg B(CORES[(i / NCORES) % NCORES], RATES[(i / 64) % 2], (bool)((i / 128) % 2), 67, (int)((i / 256) % 2));
         std::string sa = solo_fresh(A), sb = solo_fresh(B);
         o.sample = "observed " + cfg_str(A) + " / interfering " + cfg_str(B);
         for(size_t k = 0; k < IL.size(); k++) {
@@ -102,7 +104,7 @@ int main(int argc, char **argv) {
       fams.push_back(F); }
     { static int BOUND; BOUND = thorough ? 2 : 1;
       en::Family F; F.name = "two_threads_scheduled"; F.count = (uint64_t)NCORES * NCORES; F.chunk = 1; F.budget_s = 3000; F.describe = "two real threads, one instance each (core pair 8 x 8, second instance at 22050 Hz), under the serialising scheduler: every schedule with at most " + std::to_string(BOUND) + " preemption(s) over API-call boundaries and the library's yield points (before each chip construction, after Nuked's chip-type write, per generated period); each execution in a fresh process";
-      F.run = [](uint64_t i, en::CaseOut &o) { Cfg A = {CORES[i % NCORES], 44100, false, 60}; Cfg B = {CORES[i / NCORES], 22050, false, 67};
+      F.run = [](uint64_t i, en::CaseOut &o) { Cfg A(CORES[i % NCORES], 44100, true, 60, 1); Cfg B(CORES[i / NCORES], 22050, true, 67, 0);
         std::string sa = solo_fresh(A), sb = solo_fresh(B);
         static Run *R[2];
         std::vector<sc::Body> bodies; Cfg cf[2] = {A, B};
